@@ -42,12 +42,12 @@ PLANS = {
         "thorough": [ex("peg3", "peg", 3, 3), ex("rep2", "rep", 2, 5, alphabet=["a", "b", ","]), rec("pegR", "peg", 20000, 10, 10)],
     },
     "C04": {
-        "quick": [ex("peg2", "peg", 2, 3), ex("emit2", "emit", 2, 3), rec("emitR", "emit", 1000, 8, 8), rec("pegR", "peg", 1000, 8, 8)],
-        "thorough": [ex("peg3", "peg", 3, 3), ex("emit3", "emit", 3, 3), rec("emitR", "emit", 20000, 10, 10), rec("pegR", "peg", 20000, 10, 10)],
+        "quick": [ex("peg2", "peg", 2, 3), ex("emit3", "emit", 3, 3), ex("ctx2", "ctx", 2, 3), rec("emitR", "emit", 1500, 8, 8), rec("pegR", "peg", 1000, 8, 8), rec("ctxR", "ctx", 1000, 8, 8)],
+        "thorough": [ex("peg3", "peg", 3, 3), ex("emit4", "emit", 4, 3), ex("ctx3", "ctx", 3, 3), rec("emitR", "emit", 20000, 10, 10), rec("pegR", "peg", 20000, 10, 10), rec("ctxR", "ctx", 10000, 10, 10)],
     },
     "C05": {
-        "quick": [ex("emit3", "emit", 3, 3), rec("emitR", "emit", 1500, 8, 8)],
-        "thorough": [ex("emit3", "emit", 3, 4), rec("emitR", "emit", 30000, 10, 10)],
+        "quick": [ex("emit4", "emit", 4, 3), rec("emitR", "emit", 3000, 8, 8)],
+        "thorough": [ex("emit4", "emit", 4, 4), rec("emitR", "emit", 40000, 10, 10)],
     },
     "C06": {
         "quick": [ex("err3", "err", 3, 3, etys=["rich"], modes=["E"]), ex("err2", "err", 2, 3, etys=ALL_ETYS), rec("errR", "err", 1500, 8, 8, etys=ALL_ETYS)],
@@ -75,8 +75,8 @@ PLANS = {
         "thorough": [ex("lbl3", "lbl", 3, 4), rec("lblR", "lbl", 30000, 10, 10)],
     },
     "C18": {
-        "quick": [ex("peg2", "peg", 2, 3), ex("emit2", "emit", 2, 3), rec("pegR", "peg", 1500, 8, 8)],
-        "thorough": [ex("peg3", "peg", 3, 3), ex("emit3", "emit", 3, 3), rec("pegR", "peg", 20000, 10, 10)],
+        "quick": [ex("peg2", "peg", 2, 3), ex("emit3", "emit", 3, 3), rec("pegR", "peg", 1500, 8, 8), rec("emitR", "emit", 1500, 8, 8)],
+        "thorough": [ex("peg3", "peg", 3, 3), ex("emit4", "emit", 4, 3), rec("pegR", "peg", 20000, 10, 10), rec("emitR", "emit", 20000, 10, 10)],
     },
     "C20": {
         "quick": [ex("peg2", "peg", 2, 3, etys=["rich", "empty"]), ex("err2", "err", 2, 3, etys=ALL_ETYS), rec("pegR", "peg", 1500, 8, 8, etys=ALL_ETYS)],
